@@ -40,8 +40,8 @@ func runC18(c *core.Ctx) {
 	reps := c.Scale(3, 40)
 	for rep := 0; rep < reps; rep++ {
 		for _, q := range []int{1, 2, 3, 8} {
-			for entry := 0; entry < wl.NEntries; entry++ {
-				// non-blocking exact sequence
+			for entry := 0; entry <= wl.EReadFrom; entry++ {
+				// non-blocking exact sequence (also through ReadFrom: one pooled chunk per call here)
 				idx++
 				if c.Mine(idx) {
 					id := fmt.Sprintf("nb/q%d/%s/r%d", q, wl.EntryName[entry], rep)
@@ -51,7 +51,7 @@ func runC18(c *core.Ctx) {
 				}
 				for _, st := range c18Stimuli {
 					idx++
-					if !c.Mine(idx) {
+					if !c.Mine(idx) || entry == wl.EReadFrom {
 						continue
 					}
 					if (st == "ctx-cancel" || st == "ctx-deadline" || st == "ctx-already-cancelled") && entry != wl.ECtxWrite1 && entry != wl.ECtxWritev {
